@@ -6,6 +6,7 @@ Driver handlers for property C09.
 * `c09.eval`      the emitted C++ and Java bodies (`Gen/Deriving.lean`) evaluated with `Lang/MiniImp` on tuples of concrete
                   field values: all six C++ operators, Java `equals`, `hashCode`, `compareTo`, `toString`
 * `c09.decision`  which file / operator / method is emitted for a record configuration
+* `c09.deriving`  the deriving set of every record of an import graph under `generate.default_deriving`
 * `c09.spec`      the specification predicate on the results observed from the compiled implementation
 
 Concrete field values (`DV`): fixed-width integers, booleans, strings (ASCII), enum constants, lists, and *atoms* —
@@ -135,7 +136,9 @@ structure Req where
 
 def decodeCfg (req : Json) (n : Nat) : RecordCfg :=
   let b := fun k => (req.getObjValAs? Bool k).toOption.getD false
-  { eq := b "eq", ord := b "ord", nFields := n, cppStringSer := b "cppStringSer", cppBase := b "cppBase", javaStringSer := b "javaStringSer" }
+  -- `eq` / `ord`: the explicit `deriving(…)`; `defaultEq` / `defaultOrd`: `generate.default_deriving`
+  ({ eq := b "eq", ord := b "ord", nFields := n, cppStringSer := b "cppStringSer", cppBase := b "cppBase", javaStringSer := b "javaStringSer" } : RecordCfg).withDefault
+    (b "defaultEq") (b "defaultOrd")
 
 def decodeReq (req : Json) : Except String Req := do
   let fa ← req.getObjValAs? (Array Json) "fields"
@@ -189,6 +192,22 @@ def decisionJ (c : RecordCfg) : Json :=
 def decision (req : Json) : Except String Json := do
   let n ← req.getObjValAs? Nat "nFields"
   pure (decisionJ (decodeCfg req n))
+
+/-- `c09.deriving`: the deriving set of every record of a program spread over an import graph, under `generate.default_deriving` -/
+partial def decodeFile (j : Json) : Except String IdlFile := do
+  let imps := (j.getObjValAs? (Array Json) "imports").toOption.getD #[]
+  let recs := (j.getObjValAs? (Array Json) "records").toOption.getD #[]
+  let imports ← imps.toList.mapM decodeFile
+  let records ← recs.toList.mapM (fun r => do
+    pure ({ name := ← r.getObjValAs? String "name", eq := (r.getObjValAs? Bool "eq").toOption.getD false,
+            ord := (r.getObjValAs? Bool "ord").toOption.getD false } : RecDecl))
+  pure (.mk imports records)
+
+def deriving_ (req : Json) : Except String Json := do
+  let b := fun k => (req.getObjValAs? Bool k).toOption.getD false
+  let f ← decodeFile (← req.getObjVal? "file")
+  pure (Json.mkObj [("records", Json.arr ((f.parse (b "defaultEq") (b "defaultOrd")).map (fun r =>
+    Json.mkObj [("name", r.name), ("eq", r.eq), ("ord", r.ord)])).toArray)])
 
 /-! ### specification on observed results -/
 
@@ -327,6 +346,7 @@ def handle (op : String) (req : Json) : Except String Json :=
   match op with
   | "c09.eval" => eval req
   | "c09.decision" => decision req
+  | "c09.deriving" => deriving_ req
   | "c09.spec" => spec req
   | _ => throw s!"unknown op {op}"
 
